@@ -16,8 +16,9 @@
 (*   NoPreamble  - the body starts with the first dash-boundary;           *)
 (*   NoEpilogue  - the body ends with the CRLF of the close-delimiter;     *)
 (*   NoPadding   - no transport padding between boundary and CRLF / "--".  *)
-(* A part must carry at least one header line (multipart/form-data needs   *)
-(* Content-Disposition); a part with an empty header block is malformed.   *)
+(* A part may have an EMPTY header block (delimiter CRLF CRLF): its content *)
+(* starts right after the CRLF that ends the empty block (RFC 2046); it is *)
+(* delivered under the empty name like any part without Content-Disposition.*)
 (***************************************************************************)
 EXTENDS Integers, Sequences, FiniteSets
 
